@@ -49,9 +49,13 @@ Record var := mkVar {
   v_str : bool;             (* netCDF string data type *)
   v_attrs : list (string * string) }.   (* the string-valued attributes *)
 
-Record ads := mkAds {
+Record ads := mkAds3 {
   a_vars : list var;        (* in file order *)
-  a_external : list string }.  (* tokens of the global external_variables attribute *)
+  a_external : list string;    (* tokens of the global external_variables attribute *)
+  a_dims : list string }.      (* the netCDF dimensions of the file: g["internal_dimension_sizes"] *)
+
+(* a dataset whose dimensions are exactly those that its variables span *)
+Definition mkAds (vs : list var) (ext : list string) : ads := mkAds3 vs ext (flat_map v_dims vs).
 
 Definition mem (x : string) (l : list string) : bool := existsb (String.eqb x) l.
 
@@ -79,13 +83,14 @@ Definition attr (v : var) (a : string) : option string := assoc a (v_attrs v).
    norm ds: that a lookup never depends on one of the other attributes is then
    true by construction (and checked against cfdm by the correspondence). *)
 Definition lookup_attr (a : string) : bool :=
-  String.eqb a "bounds" || String.eqb a "climatology" || String.eqb a "formula_terms".
+  String.eqb a "bounds" || String.eqb a "climatology" || String.eqb a "formula_terms" ||
+  String.eqb a "compress".      (* read in the scan of the file for list variables *)
 
 Definition strip (v : var) : var :=
   mkVar (v_name v) (v_dims v) (v_char v) (v_str v)
         (filter (fun kv => lookup_attr (fst kv)) (v_attrs v)).
 
-Definition norm (ds : ads) : ads := mkAds (map strip (a_vars ds)) (a_external ds).
+Definition norm (ds : ads) : ads := mkAds3 (map strip (a_vars ds)) (a_external ds) (a_dims ds).
 
 (* a file edit: attribute a of variable vn is set to a value, or deleted *)
 Definition remove_key (a : string) (l : list (string * string)) : list (string * string) :=
@@ -99,21 +104,48 @@ Definition set_attr (a : string) (val : option string) (v : var) : var :=
          end).
 
 Definition edit (ds : ads) (vn a : string) (val : option string) : ads :=
-  mkAds (map (fun v => if String.eqb (v_name v) vn then set_attr a val v else v) (a_vars ds))
-        (a_external ds).
+  mkAds3 (map (fun v => if String.eqb (v_name v) vn then set_attr a val v else v) (a_vars ds))
+         (a_external ds) (a_dims ds).
 
 Definition var_dims (ds : ads) (n : string) : res (list string) :=
   v <- get_var ds n ;; ROk (v_dims v).
 
-(* _ncdimensions without compression: a char variable loses its trailing dimension *)
-Definition ncdims (ds : ads) (n : string) : res (list string) :=
-  v <- get_var ds n ;;
-  ROk (if v_char v && negb (Nat.eqb (length (v_dims v)) 0) then removelast (v_dims v) else v_dims v).
+(* ------------------------------------------------------------------ compression by gathering *)
+(* _check_compress: every name of the compress attribute must be a dimension of the file.
+   The flag is only ever set to False: one missing dimension, in ANY position, and the
+   verdict is False.  Result: verdict, number of "Compressed dimension is not in file"
+   messages (they are filed under no parent variable: no field's report has them) *)
+Fixpoint check_compress_list (dims parsed : list string) : bool * nat :=
+  match parsed with
+  | [] => (true, O)
+  | d :: r => let '(ok, k) := check_compress_list dims r in
+              if existsb (String.eqb d) dims then (ok, k) else (false, S k)
+  end.
 
+Definition check_compress (dims parsed : list string) : bool * nat :=
+  match parsed with
+  | [] => (false, 1%nat)       (* compress attribute is incorrectly formatted *)
+  | _ => check_compress_list dims parsed
+  end.
+
+(* a seeded variant: the flag is reassigned at every iteration (ok = ncdim in dimensions),
+   so only the last name decides *)
+Fixpoint check_compress_seeded (dims parsed : list string) (ok : bool) : bool :=
+  match parsed with
+  | [] => ok
+  | d :: r => check_compress_seeded dims r (existsb (String.eqb d) dims)
+  end.
+
+(* str.split() is defined further down; the list variables are found with it *)
 Definition subset (a b : list string) : bool := forallb (fun x => mem x b) a.
 
-(* _dimensions_are_subset *)
+(* _dimensions_are_subset (fix3-3): dims are those of _ncdimensions, i.e. the string-length
+   dimension of a char variable is already gone *)
 Definition dims_are_subset (ds : ads) (n : string) (dims parent : list string) : res bool :=
+  ROk (subset dims parent).
+
+(* before fix3-3 a char variable lost a second trailing dimension in this test *)
+Definition dims_are_subset_head (ds : ads) (n : string) (dims parent : list string) : res bool :=
   if subset dims parent then ROk true
   else v <- get_var ds n ;; ROk (v_char v && subset (removelast dims) parent).
 
@@ -195,6 +227,34 @@ Fixpoint split_ws_aux (s cur : string) : list string :=
       else split_ws_aux r (cur ++ String c "")%string
   end.
 Definition split_ws (s : string) : list string := split_ws_aux s "".
+
+(* a list variable: a coordinate variable (its only dimension has its name) with a compress attribute *)
+Definition compress_of (v : var) : option string :=
+  match v_dims v with
+  | [d] => if String.eqb d (v_name v) then assoc "compress" (v_attrs v) else None
+  | _ => None
+  end.
+
+(* g["compression"][dim]["gathered"]["implied_ncdimensions"], for the list variables that pass _check_compress *)
+Definition gathered (ds : ads) : list (string * list string) :=
+  flat_map (fun v => match compress_of v with
+                     | Some c => let p := split_ws c in
+                                 if fst (check_compress (a_dims ds) p) then [(v_name v, p)] else []
+                     | None => []
+                     end) (a_vars ds).
+
+(* the first gathered dimension is replaced by the dimensions it implies *)
+Fixpoint expand (g : list (string * list string)) (dims : list string) : list string :=
+  match dims with
+  | [] => []
+  | d :: r => match assoc d g with Some imp => imp ++ r | None => d :: expand g r end
+  end.
+
+(* _ncdimensions: a char variable loses its trailing dimension; gathered dimensions are expanded *)
+Definition ncdims (ds : ads) (n : string) : res (list string) :=
+  v <- get_var ds n ;;
+  ROk (expand (gathered ds)
+         (if v_char v && negb (Nat.eqb (length (v_dims v)) 0) then removelast (v_dims v) else v_dims v)).
 
 Definition is_word (s : string) : bool := negb (str_empty s) && str_all is_word_char s.
 
@@ -332,7 +392,8 @@ Fixpoint dim_pass (ds : ads) (dims : list string) : res (list cons * list msg) :
       if coordinate_variable ds d then
         cm <- create_bounded ds CDim d None ;;
         ROk (fst cm :: fst rest, snd cm ++ snd rest)
-      else ROk rest
+      else if mem d (a_dims ds) then ROk rest
+      else RErr KeyErr       (* size = g["internal_dimension_sizes"][ncdim] *)
   end.
 
 (* ------------------------------------------------------------------ coordinates attribute *)
@@ -986,9 +1047,13 @@ Fixpoint all_fields (strict : bool) (ds : ads) (vs : list var) : res (list fskel
   match vs with
   | [] => ROk []
   | v :: r =>
-      o <- field_skel strict ds v ;;
-      rest <- all_fields strict ds r ;;
-      ROk (match o with Some f => f :: rest | None => rest end)
+      match compress_of v with
+      | Some _ => all_fields strict ds r     (* a list variable: g["do_not_create_field"] *)
+      | None =>
+          o <- field_skel strict ds v ;;
+          rest <- all_fields strict ds r ;;
+          ROk (match o with Some f => f :: rest | None => rest end)
+      end
   end.
 
 (* who refers to n *)
@@ -1078,3 +1143,103 @@ Definition read_trace_old (steps : list step) (e : ending) : list event :=
 Definition count_ev (p : event -> bool) (t : list event) : nat := length (filter p t).
 Definition is_open (i : nat) (e : event) : bool := match e with EvOpen j => Nat.eqb i j | _ => false end.
 Definition is_close (i : nat) (e : event) : bool := match e with EvClose j => Nat.eqb i j | _ => false end.
+
+(* ------------------------------------------------------------------ open / close with external files *)
+(* cfdm.read(parent, external=[...]): _get_variables_from_external_files scans every external
+   file with a nested self.read(..., _scan_only=True).  The nested read REPLACES self.read_vars
+   (and with it the list g["datasets"] that file_close uses) until the caller puts the parent's
+   read_vars back.  A scan either succeeds (the dataset is then appended to the parent's list,
+   whether or not the file holds any of the wanted variables), or raises before it has opened
+   the file (it does not exist), or raises after it has opened it. *)
+Inductive scan := ScanOk (useful : bool) | ScanFailBefore | ScanFailAfter.
+Inductive xstep := XOpen (id : nat) | XWork | XScan (id : nat) (s : scan).
+Inductive variant :=
+| VFixed        (* with fix3-2 *)
+| VHead         (* before fix3-2: a failed scan leaves the nested read_vars in place *)
+| VSeedA.       (* a seeded change: `continue` before datasets.append(nc) for a file without wanted variables *)
+
+(* state: g["datasets"] of self.read_vars as file_close will see it; the events so far (reversed);
+   the datasets of the parent's read_vars when they have been displaced by a failed scan *)
+Record xstate := mkX { x_cur : list nat; x_ev : list event }.
+
+Definition close_all (st : xstate) : xstate :=
+  mkX [] (rev (map EvClose (x_cur st)) ++ x_ev st).
+
+(* the body of the read up to its end or to the first step that raises *)
+Fixpoint xrun (v : variant) (steps : list xstep) (st : xstate) : xstate * bool :=
+  match steps with
+  | [] => (st, false)
+  | XOpen i :: r => xrun v r (mkX (x_cur st ++ [i]) (EvOpen i :: x_ev st))
+  | XWork :: r => xrun v r st
+  | XScan i (ScanOk useful) :: r =>
+      match v, useful with
+      | VSeedA, false => xrun v r (mkX (x_cur st) (EvOpen i :: x_ev st))
+      | _, _ => xrun v r (mkX (x_cur st ++ [i]) (EvOpen i :: x_ev st))
+      end
+  | XScan i ScanFailBefore :: _ =>
+      match v with
+      | VHead => (mkX [] (x_ev st), true)            (* self.read_vars is the nested one: no dataset *)
+      | _ => (st, true)                              (* except: file_close() of nothing; finally: reset *)
+      end
+  | XScan i ScanFailAfter :: _ =>
+      match v with
+      | VHead => (mkX [i] (EvOpen i :: x_ev st), true)   (* the nested read_vars, holding i *)
+      | _ => (mkX (x_cur st) (EvClose i :: EvOpen i :: x_ev st), true)  (* except: file_close() closes i *)
+      end
+  end.
+
+(* cfdm.read: the parent is opened and registered; the body runs; at its end it calls
+   file_close; cfdm.read calls file_close again in its finally clause *)
+Definition xread_trace (v : variant) (steps : list xstep) (e : ending) : list event :=
+  let '(st, raised) := xrun v steps (mkX [0%nat] [EvOpen 0%nat]) in
+  let st := match raised, e with false, Returns => close_all st | _, _ => st end in
+  rev (x_ev (close_all st)).
+
+(* ------------------------------------------------------------------ references in a grouped dataset *)
+(* The flattener renames every variable and rewrites the reference attributes; the reader
+   maps the names back through g["flattener_variables"].  A reference that could not be
+   resolved is left as a name that is not in that mapping. *)
+Definition resolve_head (m : list (string * string)) (toks : list string) : res (list string) :=
+  mapM (fun t => match assoc t m with Some x => ROk x | None => RErr KeyErr end) toks.   (* mapping[ncvar] *)
+
+Definition resolve (m : list (string * string)) (toks : list string) : list string :=
+  map (fun t => match assoc t m with Some x => x | None => t end) toks.                   (* mapping.get(ncvar, ncvar) *)
+
+(* ------------------------------------------------------------------ the report bookkeeping *)
+(* _add_message(parent, ncvar, variable=, component=) stores a message in the report of
+   `parent` and - when it is a property of the component itself - under the component it belongs
+   to; _copy_construct(parent, ncvar) adds the stored messages of component ncvar to `parent`.
+   A message: (the parent it was emitted for, an identifier, is it a property of the component). *)
+Definition bmsg : Type := string * nat * bool.
+Inductive bk := Emit (parent component : string) (m : nat) (of_component : bool) | Copy (parent component : string).
+
+(* always_store = the rule before fix3-7: every message is stored under its component *)
+Fixpoint bk_run (always_store : bool) (evs : list bk) (reports comp : list (string * bmsg))
+  : list (string * bmsg) :=
+  match evs with
+  | [] => reports
+  | Emit p c m oc :: r =>
+      let x := (p, m, oc) in
+      bk_run always_store r (reports ++ [(p, x)]) (if always_store || oc then comp ++ [(c, x)] else comp)
+  | Copy p c :: r =>
+      bk_run always_store r
+        (reports ++ map (fun cx => (p, snd cx)) (filter (fun cx => String.eqb (fst cx) c) comp)) comp
+  end.
+
+(* ------------------------------------------------------------------ the cache of auxiliary coordinates *)
+(* requests (geometry container of the parent, variable); delivered: (variable, geometry the
+   construct was created with).  by_geometry = fix3-8: a cached construct is reused only for a
+   parent with the same geometry container *)
+Fixpoint aux_cache_run (by_geometry : bool) (reqs : list (option string * string))
+                       (cache : list (string * option string)) : list (string * option string) :=
+  match reqs with
+  | [] => []
+  | (geo, n) :: r =>
+      match assoc n cache with
+      | Some g0 =>
+          if negb by_geometry || option_eqb String.eqb g0 geo
+          then (n, g0) :: aux_cache_run by_geometry r cache
+          else (n, geo) :: aux_cache_run by_geometry r ((n, geo) :: cache)
+      | None => (n, geo) :: aux_cache_run by_geometry r ((n, geo) :: cache)
+      end
+  end.
